@@ -108,6 +108,7 @@ pub fn main(args: &[String]) {
     // history); a different outcome there is reported as the observation
     let fresh = args.iter().any(|a| a == "--fresh-threads");
     for (i, c) in cases.iter().enumerate() {
+        watch(|| json!({"case": c}).to_string());
         let mut obs = match guarded(|| run_case(c)) {
             Outcome::Ok(v) => v,
             Outcome::Panic(msg) => {
@@ -127,6 +128,7 @@ pub fn main(args: &[String]) {
                 obs = json!({"k": "history-dependent", "in_sequence": obs, "on_a_fresh_thread": o2});
             }
         }
+        unwatch();
         if obs["k"] == "unknown-op" {
             eprintln!("unknown op in case {}", c);
             std::process::exit(2);
